@@ -14,8 +14,11 @@
     * `B = np.zeros(…)`, item assignment (a later write to the same cell wins) → `colFn` (fold of `upd`)
     * `if not (nu == 0 or nd == 0)`                                          → the guard in `boundary`
     * `np.transpose`, `@`, `+` in `hodge_laplacian`                           → `Mat.transpose`, `Mat.mul`, `Mat.add`
-  Outside the model (driver answers "unmodelled"): node labels other than int/str, orientation dicts that do
-  not cover every simplex of order ≥ 1 (KeyError), negative orders.  A face that is missing from the complex
+  Orientation values are naturals, used exactly as the code uses its ints/bools (`(-1) ** o`, `(o + order - i) % 2`,
+  `True` = 1): values ≥ 2 act through their parity.
+  Outside the model (driver answers "unmodelled"): node labels other than int/str (floats in particular),
+  orientation dicts that do not cover every simplex of order ≥ 1 (KeyError), negative orientation values;
+  negative orders and non-integer orientation values are ill-typed requests ("bad-op", never generated).  A face that is missing from the complex
   (`ValueError` from `.index`) or not among the rows (`KeyError`) makes `boundaryDefined` false ("err").
 -/
 import XgiModel.Base
@@ -42,6 +45,29 @@ def add (a b : Mat) : Mat := { r := a.r, c := a.c, e := fun i j => a.e i j + b.e
 /-- `m @ x` for a vector -/
 def mulVec (m : Mat) (x : Nat → Int) : Nat → Int :=
   fun i => ((List.range m.c).map (fun j => m.e i j * x j)).sum
+
+/-- the same matrix with the entries inside its dimensions computed once and stored in a table (`memo_eq`: it IS the
+    same matrix; the only purpose is run-time sharing — `hodge` reads every entry of a boundary matrix many times, and a
+    bare entry function would recompute the whole column loop on every read) -/
+def memo (m : Mat) : Mat :=
+  let t : List (List Int) := m.toLists
+  { r := m.r, c := m.c, e := fun i j =>
+      match t[i]? with
+      | some row => (match row[j]? with
+        | some v => v
+        | none => m.e i j)
+      | none => m.e i j }
+
+theorem memo_eq (m : Mat) : m.memo = m := by
+  cases m with
+  | mk r c e =>
+    simp only [memo, toLists, Mat.mk.injEq, true_and]
+    funext i j
+    by_cases hi : i < r
+    · by_cases hj : j < c
+      · simp [hi, hj]
+      · simp [hi, hj]
+    · simp [hi]
 end Mat
 
 /-! ### simplicial complex as the views present it -/
@@ -134,14 +160,21 @@ def colFn (ws : List (Option (Nat × Int))) : Nat → Int :=
     | some (r, v) => upd f r v
     | none => f) (fun _ => 0)
 
-/-- `boundary_matrix(S, order=k, orientations=o)` -/
+/-- `boundary_matrix(S, order=k, orientations=o)`.  The loop body of every column simplex (`writes`: sorting, faces,
+    look-ups) is evaluated once when the matrix is built and its list of item assignments is kept; the `e` field
+    replays the assignments of column `j` on a zero column (`colFn`) and reads row `i`.  (The assignments are stored as
+    data on purpose: a stored *function* per column would be re-evaluated, loop body included, on every read.) -/
 def boundary (s : SC) (k : Nat) (o : PyId → Nat) : Mat :=
-  { r := (downIds s k).length
-    c := (upIds s k).length
+  let rows := downIds s k
+  let nc := (upIds s k).length
+  let cols : List (List (Option (Nat × Int))) :=
+    if rows.length = 0 ∨ nc = 0 ∨ k = 0 then []                       -- `if not (nu == 0 or nd == 0)`: stays zero
+    else (s.ofOrder (k : Int)).map (fun p => writes s k o rows p)
+  { r := rows.length
+    c := nc
     e := fun i j =>
-      if (downIds s k).length = 0 ∨ (upIds s k).length = 0 ∨ k = 0 then 0 else
-      match (s.ofOrder (k : Int))[j]? with
-      | some p => colFn (writes s k o (downIds s k) p) i
+      match cols[j]? with
+      | some ws => colFn ws i
       | none => 0 }
 
 /-- no lookup of the loops fails (`false` = the Python call raises, or — for order 0 with an empty
@@ -153,8 +186,9 @@ def boundaryDefined (s : SC) (k : Nat) (o : PyId → Nat) : Bool :=
 
 /-- `hodge_laplacian(S, order=k, orientations=o)`: `B_k^T @ B_k + B_{k+1} @ B_{k+1}^T` -/
 def hodge (s : SC) (k : Nat) (o : PyId → Nat) : Mat :=
-  ((boundary s k o).transpose.mul (boundary s k o)).add
-    ((boundary s (k + 1) o).mul (boundary s (k + 1) o).transpose)
+  let b := (boundary s k o).memo          -- `B_o`, computed once (`Mat.memo_eq`: equal to `boundary s k o`)
+  let b1 := (boundary s (k + 1) o).memo   -- `B_op1`
+  (b.transpose.mul b).add (b1.mul b1.transpose)
 
 def hodgeDefined (s : SC) (k : Nat) (o : PyId → Nat) : Bool :=
   boundaryDefined s k o && boundaryDefined s (k + 1) o
